@@ -145,14 +145,17 @@ from the *tables* of the restored Result, so an `I` record without rows is invis
 def done (K : List Rec) (t : Task) : Bool :=
   K.any (fun r => decide (r.key = t.key) && (!t.isEval || decide (0 < r.rows)))
 
+/-- `if obj not in d: d[obj] = len(d)` -/
+def ins (E : List Nat) (x : Nat) : List Nat := if E.contains x then E else E ++ [x]
+
 /-- the loop of `MakeTasks.read`: `E L V` are the dicts `envs lrns vals` (objects in order of
 first sight; the id of an object is its position) -/
 def mkAux (K : List Rec) : List (Nat × Nat × Nat) → List Nat → List Nat → List Nat → List Task
   | [], _, _, _ => []
   | (e, l, v) :: ts, E, L, V =>
-    let E' := if E.contains e then E else E ++ [e]
-    let L' := if L.contains l then L else L ++ [l]
-    let V' := if V.contains v then V else V ++ [v]
+    let E' := ins E e
+    let L' := ins L l
+    let V' := ins V v
     let t1 := if !E.contains e && !done K (.penv E.length) then [Task.penv E.length] else []
     let t2 := if !L.contains l && !done K (.plrn L.length) then [Task.plrn L.length] else []
     let t3 := if !V.contains v && !done K (.pval V.length) then [Task.pval V.length] else []
@@ -274,6 +277,12 @@ structure World.OK (w : World) : Prop where
 
 /-! ### spec-side predicates -/
 
+/-- the file holding the log `L` -/
+def logFile (w : World) (L : List Rec) : Bytes := serialize (L.map w.c.enc)
+
+/-- what a run that is killed after `k` bytes of the log `L` reached the disk leaves behind -/
+def cut (w : World) (L : List Rec) (k : Nat) : Bytes := (logFile w L).take k
+
 def keysNodup (L : List Rec) : Bool := (L.map (·.key)).Nodup
 
 /-- a log some (possibly repeatedly interrupted and resumed) run of `w` can have written -/
@@ -300,5 +309,17 @@ def tableCodec (tbl : List (Rec × Bytes)) : Codec := ⟨tableEnc tbl, tableDec 
 def tableOK (tbl : List (Rec × Bytes)) : Bool :=
   tbl.all (fun p => balanced p.2 && decide (NoNL p.2)) &&
   decide ((tbl.map (·.1)).Nodup) && decide ((tbl.map (·.2)).Nodup)
+
+/-- the record a task writes: the one carrying the task's id -/
+def tableOut (tbl : List (Rec × Bytes)) (t : Task) : Option Rec :=
+  (tbl.find? (fun p => decide (p.1.key = t.key))).map (·.1)
+
+def tableWorld (tbl : List (Rec × Bytes)) (ver exp : Rec) (triples : List (Nat × Nat × Nat)) : World :=
+  ⟨tableCodec tbl, ver, exp, tableOut tbl, triples⟩
+
+/-- run-time checkable conditions under which `tableWorld` satisfies `World.OK` -/
+def tableWorldOK (tbl : List (Rec × Bytes)) (ver exp : Rec) (triples : List (Nat × Nat × Nat)) : Bool :=
+  tableOK tbl && decide (ver.key = Key.ver) && decide (exp.key = Key.exp) &&
+  decide (ver ∈ tbl.map (·.1)) && decide (exp ∈ tbl.map (·.1)) && decide triples.Nodup
 
 end Coba.C02
